@@ -519,9 +519,8 @@ static R LPFreadValue(char*& pos, SPxOut* spxout)
 {
    assert(LPFisValue(pos));
 
-   char        tmp[SOPLEX_LPF_MAX_LINE_LEN];
+   std::string tmp;
    const char* s = pos;
-   char*       t;
    R        value = 1.0;
    bool        has_digits = false;
    bool        has_emptyexponent = false;
@@ -581,11 +580,10 @@ static R LPFreadValue(char*& pos, SPxOut* spxout)
       value = (*pos == '-') ? -1.0 : 1.0;
    else
    {
-      for(t = tmp; pos != s; pos++)
-         *t++ = *pos;
-
-      *t = '\0';
-      value = atof(tmp);
+      // the token may be longer than any fixed-size buffer
+      tmp.assign((const char*)pos, s);
+      pos += s - pos;
+      value = atof(tmp.c_str());
    }
 
    pos += s - pos;
@@ -614,19 +612,17 @@ static int LPFreadColName(char*& pos, NameSet* colnames, LPColSetBase<R>& colset
    assert(LPFisColName(pos));
    assert(colnames != nullptr);
 
-   char        name[SOPLEX_LPF_MAX_LINE_LEN];
    const char* s = pos;
-   int         i;
    int         colidx;
 
    // These are the characters that are not allowed in a column name.
    while((strchr("+-.<>= ", *s) == nullptr) && (*s != '\0'))
       s++;
 
-   for(i = 0; pos != s; i++, pos++)
-      name[i] = *pos;
-
-   name[i] = '\0';
+   // the name may be longer than any fixed-size buffer
+   const std::string namestr((const char*)pos, s);
+   const char* name = namestr.c_str();
+   pos += s - pos;
 
    if((colidx = colnames->number(name)) < 0)
    {
@@ -757,17 +753,11 @@ static inline bool LPFhasRowName(char*& pos, NameSet* rownames)
 
    assert(srt <= end && pos[srt] != ' ');
 
-   char name[SOPLEX_LPF_MAX_LINE_LEN];
-   int i;
-   int k = 0;
-
-   for(i = srt; i <= end; i++)
-      name[k++] = pos[i];
-
-   name[k] = '\0';
+   // the name may be longer than any fixed-size buffer
+   const std::string name(&pos[srt], &pos[end] + 1);
 
    if(rownames != nullptr)
-      rownames->add(name);
+      rownames->add(name.c_str());
 
    pos = &(pos[dcolpos + 1]);
 
